@@ -412,6 +412,7 @@ def rule_once(ctx):
             hooks = {"method:parseAndHandleMessageProto": lambda itp, recv, a, k, env, d, e: C_NONE}
             it, layer, cls = mk_layer(repo, RECV, "AxolotlReceivelayer", cell, domains, hooks)
             it.pure_depth = 0
+            it.no_default_in = ("isGroupMessage", "isOutgoing")     # who the author is must be decided per cell, not by a default
             node = symbolic_node("message")
             node[1].path = None
             encn = Node(("c", "enc"), None)
@@ -451,6 +452,19 @@ def rule_once(ctx):
                 bad.append("the proto child carries %s, not the result of manager.%s" % (show(d)[:40], dec))
             if attr(n, "id") != A((), "id"):
                 bad.append("the delivered stanza does not keep the message id")
+            # whose session / pinned identity is used: the participant's whenever the stanza names one, else the sender's
+            if from_manager and len(d[2]) > 1:
+                part = cell.get(("A", (), "participant"), OTHER)
+                if dec == "group_decrypt":
+                    # (group id, sender within the group): the sender is the participant
+                    allw = {a_[2] for x_ in d[2][1:] for a_ in deps_of(x_) if a_[0] == "A" and a_[1] == ()}
+                    who = set() if "participant" in allw else (allw & {"from"})
+                    want = {"participant"}
+                else:
+                    who = {a_[2] for a_ in deps_of(d[2][1]) if a_[0] == "A" and a_[1] == ()}
+                    want = {"participant"} if part is not None else {"from"}
+                if who and who != want:
+                    bad.append("the message is decrypted with the session (and checked against the pinned identity) of `%s` although %s" % ("/".join(sorted(who)), "the stanza names a participant as its author" if part is not None else "it is a direct message"))
             if [c for kk, c in n.children if isinstance(c, Node) and tagname(c) == "proto"].__len__() != 1:
                 bad.append("more than one proto child")
         ctx.check("C03.once", not bad, w, "%s delivers once" % h, "; ".join(sorted(set(bad))[:3]), "one delivery of a stanza whose proto child is the decrypted payload")
